@@ -433,6 +433,15 @@ def run(ctx):
                             itinit[v["name"][:7].rstrip("0123456789")] = fmt(ir.unwrap(ir.strip_deep(v.get("init")))) if v.get("init") is not None else ""
             iter_form = re.fullmatch(r"\((arg_|name_)\.c?begin\(\) \+ 1\)", itinit.get("__begin", "")) is not None and \
                 re.fullmatch(r"\((arg_|name_)\.c?begin\(\) \+ name_\.size\(\)\)", itinit.get("__end", "")) is not None
+            # an explicit iterator over the NAME part: it = name_.begin() + 1 ... it != name_.end()  (or the bound spelled on arg_)
+            for _, _, e in f.roots():
+                if e["expr"].get("k") == "decl":
+                    for v in e["expr"]["vars"]:
+                        i0 = fmt(ir.unwrap(ir.strip_deep(v.get("init")))) if v.get("init") is not None else ""
+                        if re.fullmatch(r"\((arg_|name_)\.c?begin\(\) \+ 1\)", i0) and (
+                                re.fullmatch(r"\(%s != name_\.c?end\(\)\)|\(name_\.c?end\(\) != %s\)" % (re.escape(v["name"]), re.escape(v["name"])), c)
+                                or re.fullmatch(r"\(%s != \((arg_|name_)\.c?begin\(\) \+ name_\.size\(\)\)\)" % re.escape(v["name"]), c)):
+                            iter_form = True
             why = "init %s / %s, condition %s, %d insertion(s)%s" % (inits, itinit, c, len(ins), "" if uncond else " (conditional)")
             if not (index_form or iter_form):
                 ctx.broken("R01.10", f, "one-entry-per-letter", "the letter loop of as_short_list() is in neither recognised form (index 1 .. name_.size(), or iterators begin()+1 .. begin()+name_.size()): %s" % why, f)
@@ -505,6 +514,17 @@ def _letter_accounting(tt):
                 kind, key, _ = lvalue_root(lv)
                 if kind == "local" and key in accs and not (n.get("k") == "decl"):
                     accs[key].append((b, i, e, n))
+    # locals that hold the token's letter list: every definition is `<token>.as_short_list()`, possibly as one arm of a ?: whose
+    # other arm is an empty container (built once up front instead of once per matching toggle)
+    lists = set()
+    for b, i, e in tt.roots():
+        x = e["expr"]
+        if x.get("k") == "decl":
+            for v in x.get("vars", []):
+                t0 = fmt(ir.unwrap(v.get("init"))) if v.get("init") is not None else ""
+                if re.fullmatch(r"\(?(\w+(\.\w+\(\))? \? )?\w+\.as_short_list\(\)( : \w*(set|vector|basic_string)?\{\})?\)?", t0) and (v.get("type") or "").startswith("const "):
+                    lists.add(v["name"])
+    LIST = r"(?:.*\.as_short_list\(\)%s)" % ("".join("|" + re.escape(n0) for n0 in sorted(lists)))
     best = None
     for name, ws in accs.items():
         if not ws:
@@ -512,7 +532,7 @@ def _letter_accounting(tt):
         good = True
         for b, i, e, n in ws:
             r = fmt(ir.unwrap(n.get("r"))) if n.get("k") == "bin" and n.get("op") == "+=" else ""
-            if not re.search(r"as_short_list\(\)\.count\(.*short_name\(\)\)", r):
+            if not re.search(r"(?:%s)\.count\(.*short_name\(\)\)" % LIST, r):
                 good = False
             if not cfg.dominated_by_edge(tt, b, lambda c: ir.unwrap(c).get("k") == "call" and short(ir.unwrap(c).get("name") or "") == "matches"):
                 good = False
@@ -539,7 +559,7 @@ def _letter_accounting(tt):
             for x in conj:
                 bo = ir.as_binop(x)
                 sides = [fmt(ir.unwrap(bo[1])), fmt(ir.unwrap(bo[2]))] if bo and bo[0] in ("!=", "==", "<", ">", "<=", ">=") else []
-                if sides and name in sides and any(re.fullmatch(r".*\.as_short_list\(\)\.size\(\)", s0) for s0 in sides):
+                if sides and name in sides and any(re.fullmatch(r"(?:%s)\.size\(\)" % LIST, s0) for s0 in sides):
                     # normalise to `acc OP size`; the accumulator can never exceed the number of letters, so `acc < size` is the
                     # mismatch as well, while `acc > size` can never hold
                     op = bo[0] if sides[0] == name else {"<": ">", ">": "<", "<=": ">=", ">=": "<="}.get(bo[0], bo[0])
@@ -553,13 +573,25 @@ def _letter_accounting(tt):
                 continue
             if len(conj) > 1 and cmpn[0] != "!=":
                 continue
+            # the same condition when the CFG keeps the && chain in separate blocks (no temporaries to join for): the blocks in front
+            # of this one whose true edge leads here and whose false edge goes where this block's non-raising edge goes
+            head = b
+            if len(conj) == 1:
+                preds = tt.preds()
+                cur = b
+                while True:
+                    ps = [p0 for p0, lab in preds.get(cur, []) if lab == "true" and tt.term(p0).get("kind") == "and" and tt.term(p0).get("cond") is not None]
+                    if len(ps) != 1 or len(preds.get(cur, [])) != 1:
+                        break
+                    others.append(ir.unwrap(tt.term(ps[0])["cond"]))
+                    cur = head = ps[0]
             # the other conjuncts may only restrict the test to matched short tokens
-            narrow = [fmt(x) for x in others if not (isinstance(x, dict) and ((x.get("k") == "ref" and x.get("type") in ("bool", "_Bool")) or (x.get("k") == "call" and short(x.get("name") or "") == "is_short")))]
+            narrow = [fmt(x) for x in others if not (isinstance(x, dict) and ((x.get("k") == "ref" and (x.get("type") or "").replace("const ", "") in ("bool", "_Bool")) or (x.get("k") == "call" and short(x.get("name") or "") == "is_short")))]
             mism = "true" if cmpn[0] == "!=" else "false"
             tgt = [to for to, lab in tt.succs(b) if lab == mism]
             raising = bool(tgt) and tt.is_noreturn(tgt[0]) and any(exc == C04.ALLOWED for _, exc, _ in C04.raise_nodes(tt, tgt[0]))
             dom = cfg.dominators(tt)
-            covers = all(b in dom.get(rb, ()) for rb in tt.return_blocks())
+            covers = all(head in dom.get(rb, ()) for rb in tt.return_blocks())
             if not covers and best is None:
                 best = (False, "the comparison of `%s` with the bundle size at line %s can be bypassed on the way to a return" % (name, tt.term(b).get("ln")))
             elif len(tt.succs(b)) == 2 and not narrow:
